@@ -58,6 +58,8 @@ def _do_action(self: Any, idx: int, action: str) -> None:
         self.out(f'o{idx}', OUT_VALUE)
     elif action == 'status':
         self.set_status(f'{STATUS_TEXT}-{idx}')
+        if ENV is not None:
+            ENV.last_user_status = f'{STATUS_TEXT}-{idx}'
     elif action == 'cs_ok':
         self.call_soon(_ok_callback, self, idx)
     elif action == 'cs_raise':
